@@ -289,7 +289,10 @@ def bimodal_group_scene(rng, sep=None, n=None, order=None, nce=1, third=False, c
             if rng.uniform() < 0.85:
                 hs.append(2000 + rng.normal(0, 40))
             if rng.uniform() < 0.75:
-                s = sep * (0.35 + 0.65 * t / n) if converge else sep
+                if converge == 'diverge':
+                    s = sep * (1.0 - 0.65 * t / n)          # separation grows towards the most recent hits
+                else:
+                    s = sep * (0.35 + 0.65 * t / n) if converge else sep
                 hs.append(2000 + s + rng.normal(0, 30))
             if third and rng.uniform() < 0.7:
                 hs.append(2000 + 2 * sep + rng.normal(0, 30))
